@@ -13,8 +13,11 @@ CONSTANT Debug    \* TRUE: report every mismatching observation and keep going (
 VARIABLES l,
           prev,    \* what the memory logically was before the last call (for crash events: the in-flight call is the last one)
           qattr,   \* payload id -> what the document satisfies (query atoms, ACL metadata), registered by put events
-          qhist    \* query id -> the table it was first answered on and the answer (C28: same answers after reopen / doctor)
-tvars == <<vars, l, prev, qattr, qhist>>
+          qhist,   \* query id -> the table it was first answered on and the answer (C28: same answers after reopen / doctor)
+          cmem,    \* explicit memory cards in the handle's track (put_memory_card)
+          cdisk    \* explicit memory cards persisted by the last commit
+tvars == <<vars, l, prev, qattr, qhist, cmem, cdisk>>
+CT == INSTANCE CardsTrack WITH MaxCards <- 0, Times <- {}, c <- 0
 MQ == INSTANCE Mv2Query
 Snap == [exists |-> exists, frames |-> frames, pend |-> pend, tseq |-> ticket.seq]
 
@@ -91,7 +94,7 @@ Matches == Chk("result", IF last'.res = "ok" THEN ResOk ELSE ResErr(last'.res))
 
 (* --------------------------------- events -------------------------------- *)
 TraceInit == l = 1 /\ Init /\ prev = [exists |-> "no", frames |-> <<>>, pend |-> <<>>, tseq |-> 0]
-             /\ qattr = EmptyMap /\ qhist = EmptyMap
+             /\ qattr = EmptyMap /\ qhist = EmptyMap /\ cmem = <<>> /\ cdisk = <<>>
 
 TReset == /\ IsEvent("reset")
           /\ exists' = "no" /\ frames' = <<>> /\ pend' = <<>>
@@ -386,6 +389,48 @@ TOtherSearch ==
           /\ Chk("other.asof", Has(a, "as_of_frame") => \A f \in fs : f <= a.as_of_frame)
   /\ Observed(Ev.obs)
 
+(* --------------------------- memory cards (C26, C27) --------------------------- *)
+CardOf(a, id) == [id |-> id, entity |-> a.entity, slot |-> a.slot, value |-> a.value,
+                  eff |-> IF Has(a, "event_date") THEN a.event_date ELSE a.document_date,
+                  rel |-> IF Has(a, "rel") THEN a.rel ELSE "sets"]
+SameCard(m, o) == m.id = o.id /\ m.entity = o.entity /\ m.slot = o.slot /\ m.value = o.value /\ m.eff = o.eff /\ m.rel = o.rel
+TCardPut == /\ IsEvent("card_put") /\ Read("card_put") /\ ResOk /\ Observed(Ev.obs)
+            /\ Chk("card.id", \A i \in 1..Len(cmem) : cmem[i].id # Ev.res.val)
+TCardGet ==
+  /\ l <= Len(Rec) /\ Ev.ev \in {"card_current", "card_at"} /\ l' = l + 1 /\ exists # "broken" /\ Read(Ev.ev) /\ ResOk
+  /\ LET a == Ev.args
+         w == IF Ev.ev = "card_current" THEN CT!GetCurrent(cmem, a.entity, a.slot) ELSE CT!GetAtTime(cmem, a.entity, a.slot, a.t) IN
+     /\ Chk("card.query", IF w = 0 THEN ~Ev.res.val.found ELSE Ev.res.val.found /\ SameCard(cmem[w], Ev.res.val.card))
+     \* C27 stated directly on the real answer
+     /\ Chk("card.temporal", Ev.res.val.found => /\ Ev.res.val.card.rel # "retracts"
+                                                 /\ (Ev.ev = "card_at" => Ev.res.val.card.eff <= a.t))
+  /\ Observed(Ev.obs)
+TCards ==
+  /\ IsEvent("cards") /\ Read("cards") /\ ResOk
+  /\ LET v == Ev.res.val
+         expl == SelectSeq(v.cards, LAMBDA x : ~x.auto)
+         auto == SelectSeq(v.cards, LAMBDA x : x.auto)
+         tab == Tab IN
+     \* C27: the explicit card set is exactly what was put (and, after reopen, what the last commit persisted)
+     /\ Chk("card.set", Len(expl) = Len(cmem) /\ \A i \in 1..Len(cmem) : SameCard(cmem[i], expl[i]))
+     \* C26: cards extracted during a put point at the frame the document really has, and say what it says
+     /\ Chk("card.source", \A i \in 1..Len(auto) : auto[i].src < Len(tab) /\ tab[auto[i].src + 1].uri = auto[i].src_uri
+                                                   /\ (Committed => auto[i].src_exists /\ auto[i].src_uri_matches))
+     /\ (\E i \in 1..Len(auto) : Committed /\ auto[i].src_exists /\ ~auto[i].value_in_text) =>
+            IF "D26_value_rewritten" \in Defects THEN Dev("D26_value_rewritten") ELSE Chk("card.value", FALSE)
+     /\ Chk("card.queue", \A i \in 1..Len(v.queue) : v.queue[i] < Len(tab) /\ tab[v.queue[i] + 1].role = "doc")
+  /\ Observed(Ev.obs)
+
+CMemNext == IF Ev.ev = "reset" THEN <<>>
+            ELSE IF Ev.ev = "card_put" /\ ResOk THEN Append(cmem, CardOf(Ev.args, Ev.res.val))
+            ELSE IF Ev.ev \in {"open", "open_ro"} /\ ResOk THEN cdisk
+            ELSE IF Ev.ev \in {"close", "abandon"} THEN <<>>
+            ELSE cmem
+CDiskNext == IF Ev.ev = "reset" THEN <<>>
+             ELSE IF Ev.ev \in {"commit", "vacuum"} /\ ResOk THEN cmem
+             ELSE IF Ev.ev = "close" /\ hdl = "rw" THEN cmem
+             ELSE cdisk
+
 QAttrNext == IF Ev.ev = "reset" THEN EmptyMap
              ELSE IF Ev.ev \in {"put", "update"} /\ Has(Ev.args, "pay") /\ ResOk
                THEN (Ev.args.pay * 1000 :> QAttrOf(Ev.args)) @@ qattr
@@ -404,8 +449,9 @@ TwinOk == Has(Ev, "twin") =>
             /\ (Ev.twin.fdigest # Ev.fdigest =>
                   IF "D23_bytes_differ" \in Defects THEN Dev("D23_bytes_differ") ELSE Chk("twin.bytes", FALSE))
 
-TraceNext == ((TraceStep \/ TSearch \/ TVSearch \/ TOtherSearch) /\ TwinOk /\ prev' = Snap /\ qattr' = QAttrNext /\ qhist' = QHistNext)
-             \/ ((TCrash \/ TCorrupt) /\ UNCHANGED <<qattr, qhist>>)
+TraceNext == ((TraceStep \/ TSearch \/ TVSearch \/ TOtherSearch \/ TCardPut \/ TCardGet \/ TCards) /\ TwinOk
+              /\ prev' = Snap /\ qattr' = QAttrNext /\ qhist' = QHistNext /\ cmem' = CMemNext /\ cdisk' = CDiskNext)
+             \/ ((TCrash \/ TCorrupt) /\ UNCHANGED <<qattr, qhist, cmem, cdisk>>)
 
 TraceSpec == TraceInit /\ [][TraceNext]_tvars
 
